@@ -16,8 +16,8 @@ func (p *prop) Generate(rng *core.Rand, tier string, emit func(string)) {
 	if p.corpus == nil {
 		p.corpus = loadCorpus()
 	}
-	nSort, nSite, nMut, nGram, nRaw, nLeak := 24000, 2000, 5000, 2500, 1500, 300
-	nRec, nImp := 4000, 2500
+	nSort, nSite, nMut, nGram, nRaw, nLeak := 20000, 1800, 4000, 2000, 1200, 250
+	nRec, nImp := 3500, 2000
 	switch tier {
 	case "thorough":
 		nSort, nSite, nMut, nGram, nRaw, nLeak = 300000, 20000, 70000, 30000, 20000, 2000
